@@ -222,21 +222,66 @@ var (
 
 // Virtual clock (imposed on the code under test through the regenerated
 // time seam, see DESIGN.md §2.8).
-func Advance(d time.Duration) { clock += int64(d) }
-func NowNanos() int64         { return clock }
-func Now() time.Time          { return time.Unix(0, clock) }
+// RealTime switches the seam to the wall clock (harnesses that run the real goroutine structure
+// natively): Sleep really sleeps, Now is the wall clock plus whatever Advance added.
+func RealTime() {
+	clockMu.Lock()
+	realTime, realBase = true, time.Now()
+	clockMu.Unlock()
+}
+
+var (
+	clockMu  sync.Mutex
+	realTime bool
+	realBase time.Time
+	realSkew int64 // added by Advance in real-time mode
+)
+
+func Advance(d time.Duration) {
+	clockMu.Lock()
+	defer clockMu.Unlock()
+	if realTime {
+		realSkew += int64(d)
+		return
+	}
+	clock += int64(d)
+}
+func NowNanos() int64 {
+	clockMu.Lock()
+	defer clockMu.Unlock()
+	if realTime {
+		return clock + int64(time.Since(realBase)) + realSkew
+	}
+	return clock
+}
+func Now() time.Time                   { return time.Unix(0, NowNanos()) }
 func Since(t time.Time) time.Duration { return Now().Sub(t) }
 func Sleep(d time.Duration) {
-	if d > 0 {
+	clockMu.Lock()
+	rt := realTime
+	if !rt && d > 0 {
 		clock += int64(d)
+	}
+	clockMu.Unlock()
+	if rt {
+		time.Sleep(d)
+		return
 	}
 	if onSleep != nil {
 		onSleep(d)
 	}
 }
 func After(d time.Duration) <-chan time.Time {
+	clockMu.Lock()
+	rt := realTime
+	clockMu.Unlock()
+	if rt {
+		return time.After(d)
+	}
 	ch := make(chan time.Time, 1)
+	clockMu.Lock()
 	clock += int64(d)
+	clockMu.Unlock()
 	ch <- Now()
 	return ch
 }
